@@ -287,7 +287,11 @@ def is_concrete(v):
 
 def zbool(v):
     """Python bool or z3 Bool -> z3 Bool."""
-    return z3.BoolVal(v) if isinstance(v, bool) else v
+    if isinstance(v, bool):
+        return z3.BoolVal(v)
+    if not is_z3(v):  # a contract wrote `xs and ...`: the truth value of a plain Python object (an empty list, None) is meant
+        return z3.BoolVal(bool(v))
+    return v
 
 
 def And(*xs):
@@ -1813,7 +1817,7 @@ class Interp:
         if isinstance(obj, (tuple, set, frozenset)) and is_concrete(obj) and all(is_concrete(a) for a in args):
             if name in ("count", "index", "union", "intersection", "difference", "issubset"):
                 return getattr(obj, name)(*args)
-        if isinstance(obj, set) and name in ("add", "discard", "remove", "update", "copy", "clear", "pop") and all((is_concrete(a) and not isinstance(a, (Rec, list, dict))) or (isinstance(a, Rec) and "__eq__" not in a.methods and "__hash__" not in a.methods) for a in args if not isinstance(a, (set, frozenset, list, tuple))):
+        if isinstance(obj, set) and name in ("add", "discard", "remove", "update", "copy", "clear", "pop", "difference_update", "intersection_update", "symmetric_difference_update") and all((is_concrete(a) and not isinstance(a, (Rec, list, dict))) or (isinstance(a, Rec) and "__eq__" not in a.methods and "__hash__" not in a.methods) for a in args if not isinstance(a, (set, frozenset, list, tuple))):
             # a concrete set of hashable concrete values (strings, numbers, tuples of them; records without __eq__/__hash__: identity): CPython's own set
             try:
                 r = getattr(obj, name)(*args)
